@@ -2,7 +2,7 @@ CONSTANTS
   Sessions = {"s1", "s2"}
   Ghosts = {"null", "unknown", "foreign", "alias", "old"}
   NodeSet = {"n"}
-  Values = {1, 2}
+  Values = {0, 1, 2}
   SubIds = {}
   ItemIds = {}
   Devs <- AllDevs
